@@ -313,7 +313,10 @@ def drive_ls(ck, rng, dn, thorough):
                 if c == "both" and (m == 1 or n == 1):
                     c = "zero" if not full_only else "full"
                 kap = float(10 ** rng.uniform(0, np.log10(kmax))) if rng.random() < 0.8 else kmax
-                sc = float(rng.choice([1e-3, 1.0, 1.0, 1e3]))
+                sc = float(rng.choice([1e-3, 1.0, 1.0, 1e3, 2.0 ** -30, 2.0 ** 20]))      # also far-away powers of two: the solvers are homogeneous
+                if m == n and m > 1 and rng.random() < 0.4:
+                    sc = 2.0 ** -30          # square, non-symmetric, entries around 1e-9 (below any absolute closeness tolerance)
+                    ck.mark("ls/square-tiny-entries")
                 sk = ("log", "one-small", "one-large", "random")[int(rng.integers(4))]
                 sd = make_system(rng, m, n, c, kap, dn, sc, sk)
                 bk = bkinds[int(rng.integers(4))] if rng.random() < 0.9 else "zero"
@@ -876,6 +879,7 @@ def run(ck):
         ck.require(f"ls/batch-rank{r}")
     for mk in ("none", "jacobi-dense", "jacobi-same-layout", "approx-inverse"):
         ck.require(f"cg/M:{mk}")
+    ck.require("ls/square-tiny-entries")
     for xk in ("none", "random", "zero", "near-solution", "sparse-guess"):
         ck.require(f"cg/x0:{xk}")
     for a in LAYOUTS:
